@@ -2,6 +2,7 @@
 // A-ser: BinWriter appends big-endian encodings; BinReader consumes exactly the bytes it returns, fails (Err)
 // instead of reading past the end, and decodes what the writer encoded (de ∘ be = id).
 pub mod grin_ser { pub use crate::SerError as Error; }
+pub mod ser { pub use crate::SerError as Error; }   // `use grin_core::ser` in slatepack/*.rs
 pub uninterp spec fn spec_be16(v: u16) -> Seq<u8>;
 pub uninterp spec fn spec_be32(v: u32) -> Seq<u8>;
 pub uninterp spec fn spec_de16(b: Seq<u8>) -> u16;
@@ -26,6 +27,9 @@ pub trait Writer {
         ensures r is Ok ==> final(self).bytes() == old(self).bytes() + spec_be64(n);
     fn write_fixed_bytes<B: VfSliceable<u8>>(&mut self, b: B) -> (r: Result<(), SerError>)
         ensures r is Ok ==> final(self).bytes() == old(self).bytes() + b.sl_view();
+    // write_bytes: u64 length prefix, then the bytes
+    fn write_bytes<B: VfSliceable<u8>>(&mut self, b: B) -> (r: Result<(), SerError>)
+        ensures r is Ok ==> final(self).bytes() == old(self).bytes() + spec_be64(b.sl_view().len() as u64) + b.sl_view();
 }
 pub trait Reader {
     spec fn remaining(&self) -> Seq<u8>;
@@ -54,6 +58,13 @@ pub trait Reader {
         ensures
             r matches Ok(v) ==> old(self).remaining().len() >= length && v@ == old(self).remaining().take(length as int) && final(self).remaining() == old(self).remaining().skip(length as int),
             (old(self).remaining().len() >= length && length <= 100_000) ==> r is Ok,
+            r is Err ==> final(self).remaining().len() <= old(self).remaining().len();
+    // read_bytes_len_prefix: u64 length, then that many bytes (read_fixed_bytes' limit applies)
+    fn read_bytes_len_prefix(&mut self) -> (r: Result<Vec<u8>, SerError>)
+        ensures
+            r matches Ok(v) ==> old(self).remaining().len() >= 8 + v@.len() && v@.len() <= 100_000 && v@.len() == spec_de64(old(self).remaining().take(8))
+                && v@ == old(self).remaining().subrange(8, 8 + v@.len() as int) && final(self).remaining() == old(self).remaining().skip(8 + v@.len() as int),
+            (old(self).remaining().len() >= 8 && old(self).remaining().len() >= 8 + spec_de64(old(self).remaining().take(8)) && spec_de64(old(self).remaining().take(8)) <= 100_000) ==> r is Ok,
             r is Err ==> final(self).remaining().len() <= old(self).remaining().len();
 }
 // Writeable / Readable of external types used inside slates: opaque fixed-format encodings
